@@ -74,8 +74,11 @@ def run(prop, tier, seed, replay):
                                  z=nprng.uniform(0.1, 1, n), w=nprng.uniform(1, 2, n), patch=np.arange(n) % 3)
                 log = []
                 spy = SpyFrame(df, log)
+                # the chunk size arrives as whatever integer type the caller computed it with (a numpy scalar just as well)
+                c_arg = [c, np.int64(c), c, np.int32(c), np.uint16(c)][ci % 5]
+                ck.count(f"chunksize-type={type(c_arg).__name__}")
                 kw = dict(ra_name="ra", dec_name="dec", redshift_name="z", weight_name="w", degrees=False,
-                          chunksize=c, overwrite=True)
+                          chunksize=c_arg, overwrite=True)
                 if mode == "centers":
                     kw["patch_centers"] = cents
                 elif mode == "name":
@@ -195,7 +198,7 @@ def run(prop, tier, seed, replay):
                     pq.ParquetFile.read_row_groups, pq.ParquetFile.read, pq.ParquetFile.iter_batches = (
                         logged_many, logged_all, logged_iter)
                 try:
-                    with new_filereader(path, ra_name="ra", dec_name="dec", chunksize=c) as reader:
+                    with new_filereader(path, ra_name="ra", dec_name="dec", chunksize=[c, np.int64(c)][(fi // 3) % 2]) as reader:
                         # the probe pass (centre generation) with probes SPARSER than the chunks and denser: the documented
                         # near-regular subset (first and last record included), and — a pass like any other — every row
                         # group requested exactly once
